@@ -424,7 +424,7 @@ def in_process_run(sc: Dict[str, Any], tag="run") -> Dict[str, Any]:
             v = (v - (mass * v).sum(1, keepdim=True) / mass.sum(1, keepdim=True)) * real
             mol.velocities = v
         with contextlib.redirect_stdout(io.StringIO()):
-            md.run(mol, sc["steps"], seed=sc.get("seed", 1), remove_com=sc.get("remove_com"), reuse_P=sc.get("reuse_P", True))
+            md.run(mol, sc["steps"], seed=sc.get("seed", 1), remove_com=sc.get("remove_com"), reuse_P=sc.get("reuse_P", True), **sc.get("run_kwargs", {}))
         out = {}
         for m in sc.get("molid", [0]):
             out[m] = observe(prefix, m)
